@@ -60,6 +60,8 @@ func c19Entries(s *c19Setup) map[string]func() {
 		"filter": func() { _, _ = w.Filter(s.x.Key()) },
 		// a filter for the re-created z, whose IP is still held under its key by the old incarnation
 		"filter-z": func() { _, _ = w.Filter(s.z.Key()) },
+		// Preempt runs without the pod's lock: for the re-created z it reads the entries its old incarnation's events write
+		"preempt-z": func() { w.Preempt(s.z.Key()) },
 		// a filter for the pod whose bind is another entry point (the scheduler filtering it again)
 		"filter-y": func() { _, _ = w.Filter(s.y.Key()) },
 		// pods of custom workload kinds: the release-policy check asks the CRD key cache (hit for the known kind; a kind
@@ -134,7 +136,7 @@ func c19IPAMScenarios(tier string) []*Scenario {
 			out = append(out, mk([]string{names[i], names[j]}))
 		}
 	}
-	for _, pr := range [][]string{{"filter-z", "unbind"}, {"filter-z", "resync"}, {"filter-z", "release"}, {"filter-y", "bind"}, {"filter-y", "update-running"}, {"filter-crd-known", "filter-crd-unknown"}, {"filter-crd-unknown", "filter-crd-unknown"}, {"filter-crd-known", "filter-crd-known"},
+	for _, pr := range [][]string{{"preempt-z", "unbind"}, {"preempt-z", "resync"}, {"preempt-z", "release"}, {"preempt-z", "reload"}, {"filter-z", "unbind"}, {"filter-z", "resync"}, {"filter-z", "release"}, {"filter-y", "bind"}, {"filter-y", "update-running"}, {"filter-crd-known", "filter-crd-unknown"}, {"filter-crd-unknown", "filter-crd-unknown"}, {"filter-crd-known", "filter-crd-known"},
 		{"filter-crd-unknown", "resync"}, {"filter-crd-known", "reload"}, {"filter-crd-unknown", "bind"}} {
 		out = append(out, mk(pr))
 	}
